@@ -1,5 +1,5 @@
 // gotoir2: the syntactic translator of gotocoq/ir extended to the language of coq/Model/GoIR2.v:
-// break / continue, / and %, slices of bool, range over a slice of slices, named integer types and conversions
+// break / continue, switch without fallthrough (as an if / else-if chain), / and %, slices of bool, range over a slice of slices, named integer types and conversions
 // between them (identity), generic functions over integer types, methods (value receivers on integer types and
 // structs, pointer receivers on structs), pointer-to-struct parameters, calls whose result is thrown away,
 // functions without result.
@@ -640,6 +640,71 @@ func (c *ctx) stmt(s ast.Stmt) string {
 			}
 			return "(SIf " + cond + "\n      " + th + "\n      " + el + ")"
 		})
+	case *ast.SwitchStmt:
+		// a switch without fallthrough is a chain of if / else if: `switch { case c1: A; case c2: B; default: D }`, and
+		// `switch x { case v1, v2: A }` with x compared in turn (x must be a variable or a constant expression without
+		// calls, so that evaluating it once per comparison is the same thing).  A break inside it would leave the switch,
+		// not the loop around it: refused.
+		if x.Init != nil {
+			fail("switch with an init statement at %s", pos(x.Pos()))
+		}
+		tag := ""
+		if x.Tag != nil {
+			n := len(c.pre)
+			tag = c.expr(x.Tag)
+			if len(c.pre) != n {
+				fail("call in a switch tag at %s", pos(x.Pos()))
+			}
+		}
+		type arm struct {
+			cond string
+			body string
+		}
+		var arms []arm
+		def := "SSkip"
+		for _, cc := range x.Body.List {
+			cl := cc.(*ast.CaseClause)
+			for _, st := range cl.Body {
+				ast.Inspect(st, func(nd ast.Node) bool {
+					switch b := nd.(type) {
+					case *ast.ForStmt, *ast.RangeStmt:
+						return false // a break in there belongs to that loop
+					case *ast.BranchStmt:
+						if b.Tok == token.BREAK || b.Tok == token.FALLTHROUGH {
+							fail("%s inside a switch at %s", b.Tok, pos(b.Pos()))
+						}
+					}
+					return true
+				})
+			}
+			body := c.block(cl.Body)
+			if cl.List == nil {
+				def = body
+				continue
+			}
+			conds := []string{}
+			for _, e := range cl.List {
+				n := len(c.pre)
+				ce := c.expr(e)
+				if len(c.pre) != n {
+					fail("call in a case expression at %s", pos(e.Pos()))
+				}
+				if tag != "" {
+					ce = "(EBin Eq " + tag + " " + ce + ")"
+				}
+				conds = append(conds, ce)
+			}
+			cond := conds[0]
+			for _, o := range conds[1:] {
+				cond = "(EBin Or " + cond + " " + o + ")"
+			}
+			arms = append(arms, arm{cond, body})
+		}
+		out := def
+		for i := len(arms) - 1; i >= 0; i-- {
+			out = "(SIf " + arms[i].cond + "\n      " + arms[i].body + "\n      " + out + ")"
+		}
+		return out
 	case *ast.ForStmt:
 		init := "SSkip"
 		if x.Init != nil {
@@ -880,6 +945,23 @@ func renameFunc(d *ast.FuncDecl) {
 			expr(x.Cond)
 			block(x.Body)
 			stmt(x.Else)
+			pop()
+		case *ast.SwitchStmt:
+			push()
+			stmt(x.Init)
+			expr(x.Tag)
+			for _, cc := range x.Body.List {
+				if cl, ok := cc.(*ast.CaseClause); ok {
+					for _, e := range cl.List {
+						expr(e)
+					}
+					push()
+					for _, st := range cl.Body {
+						stmt(st)
+					}
+					pop()
+				}
+			}
 			pop()
 		case *ast.ForStmt:
 			push()
